@@ -9,8 +9,8 @@
 EXTENDS Fill, TLC, Json, SequencesExt
 CONSTANTS MaxLen1, MaxRows2, MaxList, Lims
 
-VARIABLES f, ms, lim, done
-vars == <<f, ms, lim, done>>
+VARIABLES f, ms, lim, done, outs      \* outs: the admitted outcomes, computed once by Eval
+vars == <<f, ms, lim, done, outs>>
 
 Code(j, i) == 100 * j + i
 FrameOf(n, masks) ==       \* masks: one function [1..n -> BOOLEAN] per column, TRUE = valid
@@ -24,11 +24,11 @@ Methods == {<<"ffill", 0>>, <<"bfill", 0>>, <<"const", CONSTV>>, <<"nona", 0>>, 
             <<"ffill_na", 0>>, <<"ffill_0", 0>>}
 ListU   == UNION {[1..k -> Methods] : k \in 0..MaxList}
 
-Init == f \in FrameU /\ ms \in ListU /\ lim \in Lims /\ done = FALSE
-Eval == done = FALSE /\ done' = TRUE /\ UNCHANGED <<f, ms, lim>>
+Init == f \in FrameU /\ ms \in ListU /\ lim \in Lims /\ done = FALSE /\ outs = {}
+Eval == done = FALSE /\ done' = TRUE /\ outs' = Fillna(f, ms, lim) /\ UNCHANGED <<f, ms, lim>>
 
-Outs == Fillna(f, ms, lim)
-EvalGen == Eval /\ PrintT(ToJson([f |-> f, ms |-> ms, lim |-> lim, want |-> SetToSeq(Outs),
+Outs == outs
+EvalGen == Eval /\ PrintT(ToJson([f |-> f, ms |-> ms, lim |-> lim, want |-> SetToSeq(outs'),
                                   nonafn |-> IF ms = <<>> /\ lim = 0
                                              THEN <<NonaFn(f, 0), NonaFn(f, 1), NonaFn(f, -1)>> ELSE <<>>]))
 
